@@ -31,7 +31,10 @@ try:
         if r.returncode:
             sys.exit('patch failed: ' + r.stdout + r.stderr)
     env = dict(os.environ, VERIF_REPO=d, VERIF_BUDGET=a.budget, VERIF_NO_EVIDENCE='1', VERIF_SEED=a.seed)
-    r = subprocess.run([sys.executable, '/verif/verif.py', 'check', a.prop, '--tier', a.tier], env=env,
+    # VERIF_HOME: another checkout of /verif (e.g. a frozen earlier commit, to record what the checks said *before*
+    # they were strengthened for a seeded change)
+    home = os.environ.get('VERIF_HOME') or os.path.dirname(os.path.dirname(os.path.abspath(__file__)))
+    r = subprocess.run([sys.executable, os.path.join(home, 'verif.py'), 'check', a.prop, '--tier', a.tier], env=env,
                        stdout=subprocess.PIPE, stderr=subprocess.STDOUT, text=True)
     for l in r.stdout.splitlines():
         if l.startswith(('VIOLATION', 'INCONCLUSIVE', '  key=')) or l.startswith(a.prop):
